@@ -291,6 +291,70 @@ def sftp_get_names(n: int, i0: int, i1: int, i2: int, i3: int, kind: int, preser
     return True
 
 
+def sftp_glob_names(n: int, i0: int, i1: int, i2: int, i3: int, kind: int, preserve: bool) -> bool:
+    """get('/remote/*', dst, recurse=True): for any directory-entry name a
+    hostile server returns for /remote (and any listing it returns below it),
+    everything created or modified locally is inside dst."""
+    fname = enc_bytes(ALPHA, n, [i0, i1, i2, i3])
+    assume(len(fname) > 0)
+    dst = b'/dl/d'
+    log = []
+    ftype = pick([S.FILEXFER_TYPE_REGULAR, S.FILEXFER_TYPE_DIRECTORY, S.FILEXFER_TYPE_SYMLINK], kind)
+
+    class SrcFS:
+        limits = None
+        basename = staticmethod(S.SFTPClient.basename)
+
+        def encode(self, path):
+            return path
+
+        async def stat(self, path, **k):
+            return SFTPAttrs(type=S.FILEXFER_TYPE_DIRECTORY, permissions=0o755)
+
+        async def scandir(self, path):
+            if path == b'/remote':
+                yield SFTPName(fname, attrs=SFTPAttrs(type=ftype, size=0, permissions=0o644))
+            else:
+                yield SFTPName(b'evil', attrs=SFTPAttrs(type=S.FILEXFER_TYPE_REGULAR, size=0, permissions=0o644))
+
+        async def readlink(self, path):
+            return b'target'
+
+        async def open(self, path, mode='rb', **k):
+            raise S.SFTPNoSuchFile('stub')
+
+    class DstFS(_RecFS):
+        encode = S.LocalFS.encode
+        compose_path = S.LocalFS.compose_path
+
+        async def open(self, path, mode='wb', **k):
+            self.log.append(('open', path))
+            raise S.SFTPFailure('stub')
+
+    cl = S.SFTPClient.__new__(S.SFTPClient)
+
+    class H:
+        version = 3
+        logger = NullLogger()
+        supports_copy_data = False
+
+    cl._handler = H()
+    cl._path_encoding = None
+    cl._path_errors = 'strict'
+    cl._cwd = None
+    errs = []
+    r = drive(cl._begin_copy(SrcFS(), DstFS(log, True), [b'/remote/*'], dst, 'get', True, preserve, True, False, False,
+                             16, 1, None, lambda exc: errs.append(exc)))
+    if r[0] == 'exc' and not isinstance(r[1], (OSError, SFTPError)):
+        return False
+    if r[0] == 'suspended':
+        return False
+    for _, p in log:
+        if not confined(p, dst):
+            return False
+    return True
+
+
 OBLIGATIONS = [
     Ob('map_path', map_path,
        sym=dict(n=R(0, 6), i0=R(0, 2), i1=R(0, 2), i2=R(0, 2), i3=R(0, 2), i4=R(0, 2), i5=R(0, 2)),
@@ -319,6 +383,12 @@ OBLIGATIONS = [
        timeout=150, thorough_timeout=400,
        functions=[S.SFTPClient._copy],
        bounds='one directory entry with a name of length <= 4 over {/ . a}, of type file / directory / symlink'),
+    Ob('sftp_glob_names', sftp_glob_names,
+       sym=dict(n=R(1, 4), i0=R(0, 2), i1=R(0, 2), i2=R(0, 2), i3=R(0, 2), kind=R(0, 2), preserve=B),
+       shards=dict(kind=[0, 1, 2]),
+       timeout=150, thorough_timeout=400,
+       functions=[S.SFTPClient._begin_copy, S.SFTPGlob.match, S.SFTPGlob._match_pattern, S.SFTPClient._copy],
+       bounds='glob download /remote/* with one matching directory entry whose name has length <= 4 over {/ . a}, of type file / directory / symlink; any listing below it returns one file'),
 ]
 
 MANIFEST = dict(
